@@ -12,7 +12,8 @@ RULE = ("inputs that carry HTML metacharacter payloads in strings, comments, dec
         "(result, print, statement echo via HtmlFormatter; diagnostics via HtmlWriter) is tokenised strictly: only "
         "`<span class=\"numbat-…\">`/`</span>` may appear as tags, text may contain no raw `<`/`>` and only well-formed "
         "entities, and the text content (tags removed, entities decoded) must equal the plain-text rendering of the same "
-        "output. distinct = (template, payload); non-trivial = the plain rendering contains `<`, `>` or `&`")
+        "output; the same for the output of `info <name>` (payload in @name/@url/@description/@example of units, functions and "
+        "variables, in string and struct values) and of `list`. distinct = (template, payload); non-trivial = the plain rendering contains `<`, `>` or `&`")
 EXHAUSTIVE = {"quick": False, "thorough": False}
 FLOOR = {"quick": 300, "thorough": 3000}
 ASSUMPTIONS = ["the plain-text rendering of the same markup/diagnostic is the reference for the text content of the HTML rendering"]
@@ -146,9 +147,52 @@ def make_case(rng, k, idx):
     return {"template": tmpl, "payload": p, "code": code, "stage": stage}
 
 
+INFO_DEFS = [
+    # (definition with the payload in decorators, keyword to ask `info` about)
+    ('dimension VfInfoD{K}\n@name("{P}")\n@url("{P}")\n@description("{P}")\nunit vf_iu_{K}: VfInfoD{K}', "vf_iu_{K}"),
+    ('@name("{P}")\n@aliases(vf_ia_{K})\nunit vf_iv_{K}: Length = 2 m', "vf_ia_{K}"),
+    ('@name("{P}")\n@description("{P}")\n@url("{P}")\n@example("vf_if_{K}(1)", "{P}")\nfn vf_if_{K}(x: Scalar) -> Scalar = x', "vf_if_{K}"),
+    ('@name("{P}")\n@description("{P}")\nlet vf_il_{K} = 1 m', "vf_il_{K}"),
+    ('let vf_is_{K} = "{P}"', "vf_is_{K}"),
+    ('struct VfIs{K} {{ f: String }}\nlet vf_it_{K} = VfIs{K} {{ f: "{P}" }}', "vf_it_{K}"),
+]
+
+
+def run_info(sh, w, rng, k, idx):
+    """`info <name>` and `list`: the payload travels through decorators / values into the informational output"""
+    p = rng.choice(PAYLOADS)
+    tmpl, kw = rng.choice(INFO_DEFS)
+    K = f"{idx}_{k}"
+    code = tmpl.format(P=p, K=K)
+    case = {"template": "info:" + tmpl[:40], "payload": p, "code": code, "stage": None}
+    sid = w.fork("p")
+    try:
+        r = w.eval(sid, code, stmts=False)
+        if not r.get("ok"):
+            sh.count_in("info_definition_not_accepted", str(r.get("kind")))
+            return
+        for keyword in (kw.format(K=K), p, "vf_unknown <b>" + p):
+            ri = w.call({"op": "info", "sid": sid, "keyword": keyword})
+            if ri.get("status") == "panic":
+                sh.count("panics_left_to_C08")
+                continue
+            check_pair(sh, dict(case, code=code + f"\ninfo {keyword}"), "info", ri.get("html"), ri.get("plain"))
+        re_ = w.call({"op": "environment", "sid": sid})
+        if re_.get("ok"):
+            check_pair(sh, dict(case, code=code + "\nlist"), "list", re_.get("html"), re_.get("plain"))
+    finally:
+        w.drop(sid)
+
+
 def run_shard(sh, spec):
     w = get_worker()
     rng = rng_for(spec["seed"], "C20", spec["idx"])
+    for k in range(max(8, spec["count"] // 40)):
+        try:
+            run_info(sh, w, rng, k, spec["idx"])
+        except (WorkerDied, WorkerTimeout) as e:
+            sh.violation({"code": "info"}, f"interpreter crashed/hung rendering info output: {e}")
+            w.restart()
     es = EvalSession(w, refresh=80)
     for k in range(spec["count"]):
         case = make_case(rng, k, spec["idx"])
